@@ -75,7 +75,7 @@ structure InstCfg where
 inductive ApiKind
   | start | stop
   | stopctx (del wait : Bool) (timeout ctxTimeout : Nat)
-  | validate | validateOrDemote
+  | validate (ctxTimeout : Nat) | validateOrDemote (ctxTimeout : Nat)
   deriving Repr, DecidableEq, Inhabited
 
 inductive ApiRes
